@@ -1,6 +1,7 @@
 (* ModConv.v -- C15: multibyte <-> wide conversion wrappers.  libc's converters are MODELLED (not verified):
    UTF-8 per Utf8.v in the C.UTF-8 locale, ASCII-only in the C locale; they store regardless of dmax,
-   exactly as the C library does -- which is what makes a missing clamp visible. *)
+   exactly as the C library does -- which is what makes a missing clamp visible (the wrappers clamp len to dmax
+   and stage single characters in a local buffer since the fix: commits of round 3). *)
 From Coq Require Import List ZArith Lia Bool.
 From SC Require Import Base Cfg Comb Utf8.
 Import ListNotations.
@@ -27,6 +28,15 @@ Definition wctomb_m (utf8 : bool) (dest wc : Z) : prog Z :=
   else match wc_enc utf8 wc with
        | None => Ret (-1)
        | Some bs => store_bytes dest bs (Ret (Z.of_nat (length bs)))
+       end.
+
+(* the value wcrtomb / wctomb return when they convert into a local buffer (dest only selects the NULL form) *)
+Definition wcx_bytes (utf8 : bool) (wc : Z) : list Z := match wc_enc utf8 wc with Some bs => bs | None => [] end.
+Definition wcx_len (utf8 restartable : bool) (dest wc : Z) : Z :=
+  if dest =? 0 then (if restartable then 1 else 0)
+  else match wc_enc utf8 wc with
+       | None => if restartable then SIZE_MAX else -1
+       | Some bs => Z.of_nat (length bs)
        end.
 
 (* decode one multibyte character at p (loads only the bytes the lead byte announces) *)
@@ -88,7 +98,7 @@ Definition mbstowcs_s (c : cfg) (utf8 : bool) (retvalp dest dmax src len destbos
       let after_checks : prog Z :=
         if dest =? src then Ret ESOVRLP
         else
-          r <- mbstowcs_m utf8 w dest src len (rmax_str c + 1) ;;
+          r <- mbstowcs_m utf8 w dest src (if negb (dest =? 0) && (dmax <? len) then dmax else len) (rmax_str c + 1) ;;
           Store 8 retvalp r (
             if r <? dmax then
               (if dest =? 0 then Ret EOK
@@ -116,7 +126,7 @@ Definition wcstombs_s (c : cfg) (utf8 : bool) (retvalp dest dmax src len destbos
         (if dest =? 0 then Ret tt else (if null_slack c then Fill dest dmax 0 (Ret tt) else Store 1 dest 0 (Ret tt))) ;;; fail_str ESNULLP
       else if dest =? src then fail_str ESOVRLP
       else
-        l <- wcstombs_m utf8 w dest src len (rmax_str c + 1) ;;
+        l <- wcstombs_m utf8 w dest src (if negb (dest =? 0) && (dmax <? len) then dmax else len) (rmax_str c + 1) ;;
         Store 8 retvalp l (
           if (0 <? l) && (l <? dmax) then
             (if dest =? 0 then Ret EOK
@@ -146,11 +156,12 @@ Definition wcrtomb_s (c : cfg) (utf8 : bool) (retvalp dest dmax wc ps destbos : 
   if retvalp =? 0 then fail_str ESNULLP
   else if ps =? 0 then fail_str ESNULLP
   else chk_c_dest c dest dmax destbos (fun _ =>
-    len <- wcrtomb_m utf8 dest wc ;;
+    let len := wcx_len utf8 true dest wc in          (* wcrtomb(dest ? tmp : NULL, wc, ps): the bytes go to a local buffer *)
     Store 8 retvalp len (
       if len <? dmax then
         (if dest =? 0 then Ret EOK
-         else if null_slack c then Fill (dest + len) (dmax - len) 0 (Ret EOK) else Store 1 (dest + len) 0 (Ret EOK))
+         else store_bytes dest (wcx_bytes utf8 wc)
+                (if null_slack c then Fill (dest + len) (dmax - len) 0 (Ret EOK) else Store 1 (dest + len) 0 (Ret EOK)))
       else
         let rc := if len <=? rmax_str c then ESNOSPC else EILSEQ in
         if dest =? 0 then Ret rc else handle_error c 1 dest dmax rc ;;; Ret rc)).
@@ -159,11 +170,12 @@ Definition wcrtomb_s (c : cfg) (utf8 : bool) (retvalp dest dmax wc ps destbos : 
 Definition wctomb_s (c : cfg) (utf8 : bool) (retvalp dest dmax wc destbos : Z) : prog Z :=
   if retvalp =? 0 then fail_str ESNULLP
   else chk_c_dest c dest dmax destbos (fun _ =>
-    len <- wctomb_m utf8 dest wc ;;
+    let len := wcx_len utf8 false dest wc in
     Store 4 retvalp len (
       if (0 <? len) && (len <? dmax) then
         (if dest =? 0 then Ret EOK
-         else if null_slack c then Fill (dest + len) (dmax - len) 0 (Ret EOK) else Ret EOK)
+         else store_bytes dest (wcx_bytes utf8 wc)
+                (if null_slack c then Fill (dest + len) (dmax - len) 0 (Ret EOK) else Ret EOK))
       else
         let rc := if 0 <? len then ESNOSPC else if len =? -1 then EILSEQ else 0 in   (* errno stays 0 for wctomb(NULL) / L'\\0' *)
         if dest =? 0 then Ret rc else handle_error c 1 dest dmax rc ;;; Ret rc)).
